@@ -31,24 +31,58 @@ class Facts:
         self.consts = {c["name"]: c for c in d["consts"]}
         self.impls = d["impls"]
         self._callers = None
+        self.inline_new = True
 
     # -- lookup ---------------------------------------------------------------------------
     def body(self, name):
         """Look a body up by its pretty name (e.g. 'mila::bin_archive::BinArchive::allocate')
         or unique id.  Returns None when absent."""
+        b = self.raw_body(name)
+        if b is None or not self.inline_new:
+            return b
+        return self.ibody(b)
+
+    def raw_body(self, name):
         if name in self.bodies:
             return self.bodies[name]
         l = self.by_name.get(name)
-        if l:
-            return l[0]
-        return None
+        return l[0] if l else None
+
+    def known(self):
+        """Functions of the tree the rules were confirmed against (known_fns.json)."""
+        k = self.__dict__.get("_known")
+        if k is None:
+            import os
+            with open(os.path.join(os.path.dirname(os.path.abspath(__file__)), "known_fns.json")) as f:
+                d = json.load(f)
+            k = self.__dict__["_known"] = (frozenset(d["names"]), frozenset(d["ids"]))
+        return k
+
+    def ibody(self, name, keep=None, depth=4, adaptors=True):
+        """The body with *new* crate-local helpers, visible closures and loop adaptors expanded
+        (inline.py).  `keep`: extra names (full, or last path segments) of callees to leave as calls;
+        every function listed in known_fns.json is kept."""
+        import inline
+        b = self.raw_body(name) if isinstance(name, str) else name
+        if b is None:
+            return None
+        keep = tuple(sorted(keep or ()))
+        key = (b.id, keep, depth, adaptors)
+        c = self.__dict__.setdefault("_ibodies", {})
+        if key not in c:
+            names, ids = self.known()
+            def kp(n, keep=keep, names=names):
+                return n in names or any(n == k or n.endswith("::" + k) for k in keep)
+            c[key] = inline.inline_body(self, b, kp, depth, adaptors, known_ids=ids)
+        return c[key]
 
     def find(self, suffix):
         """All bodies whose pretty name ends with `suffix`."""
         return [b for b in self.bodies.values() if b.name.endswith(suffix)]
 
     def closures_of(self, body):
-        return sorted((b for b in self.bodies.values() if b.parent == body.id and b.kind == "Closure"),
+        ids = {body.id} | set(getattr(body, "inlined_ids", ()) or ())
+        return sorted((b for b in self.bodies.values() if b.parent in ids and b.kind == "Closure"),
                       key=lambda b: b.id)
 
     def adt(self, name):
